@@ -21,14 +21,17 @@ META = {
                   'stream removal within the bounds and proves the step predicates P_* (election only with more than '
                   'half of the in-sync followers as witnesses in the current window, new leader in the ISR and not the '
                   'reported one, epochs strictly increasing, one leader per epoch, stale requests refused without '
-                  'change) and leader-in-ISR on the specification; the same behaviours run on the real controller code '
+                  'change - also when a report is overtaken by another report\'s election between its pair check and '
+                  'its registration) and leader-in-ISR on the specification; the same behaviours run on the real controller code '
                   'and each real state is re-judged by TLC.',
-    'level_note': 'Controller side only, one partition, requests are atomic (sequences of requests, no two requests '
-                  'inside metadataAPI at the same time); 4 fictitious replicas + 1 non-replica id; shrink/expand name '
-                  'replicas other than the leader named in the request (the only in-tree sender does). The expiry '
-                  'timer is real (120 ms); the driver proves by the clock that no step other than Expire can have '
-                  'seen a spontaneous expiry, else the behaviour is re-executed. Bounds: quick 6 steps exhaustive '
-                  'model / 5 steps replayed transition cover / 10 steps simulated; thorough 7 / 6 / 14.',
+    'level_note': 'Controller side only, one partition; 4 fictitious replicas + 1 non-replica id; shrink/expand name '
+                  'replicas other than the leader named in the request (the only in-tree sender does). Requests are '
+                  'atomic except ReportLeader, whose two critical sections (pair check / witness registration + election) '
+                  'are separate steps with up to 2-3 reports parked in between (gate hook); other overlaps are not '
+                  'scheduled. The expiry timer is real (120 ms); the driver proves by the clock that no step other than '
+                  'Expire can have seen a spontaneous expiry, else the behaviour is re-executed. Bounds: quick 8 steps '
+                  'exhaustive model (6 with overlapping reports) / 3 steps replayed transition cover / 10 steps '
+                  'simulated; thorough 12 / 4 / 14.',
     'design_ref': 'DESIGN.md section 6/C07',
 }
 
